@@ -33,6 +33,10 @@ CHECKS["C20"] = dict(level="exploration",
    text="Differential search: (a) generated storage-operation sequences over a key space with sibling-prefix and nested names run side by side on LocalStorageBackend and on S3StorageBackend over a strongly consistent in-memory S3 (results, not-found errors, listings confined to the named directory must be identical); (b) generated seek/read programs on the raw S3RangeFile vs io.FileIO and on open_seekable vs a local file over objects around the 1 MiB buffer boundary (bytes, return values, positions, errors identical; every Range in bounds; the raw reader never requests more than asked); (c) generated per-request fault plans for every backend operation (k<=budget transient faults are masked with attempts=faults+1 and unchanged results; a permanent error surfaces on attempt 1 as the original exception; beyond the budget the last error is raised; exists never turns an error into False; conditional PUTs are not retried).",
    note="The S3 side is a fake (MD5 ETags, conditional PUT, paginated listings of 2 keys/page). Directory-ness of exists() is outside the contract and not compared. whence is restricted to 0/1/2.",
    technique="property-based differential testing (Hypothesis) of two implementations + fault-plan injection at request granularity", design="3/C20")
+CHECKS["C10"] = dict(level="exploration",
+   text="Generated histories that interleave commits with failed commits and crash leftovers (both leave uncommitted vN metadata files), then a pointer damage drawn from a byte grammar (17 classes incl. stale and orphan-naming content), then an action (load, create with another schema, append, scan, GC after ageing). The table in effect must have the original uuid/schema and exactly the snapshots and rows of the latest COMMITTED version known to the harness; create must not re-initialise; a follow-up append must preserve all committed rows and build on the latest committed version; GC must not delete its files.",
+   note="Three root causes are listed as known findings (pointer naming an existing stale / uncommitted file is trusted; crash orphan surfaces after pointer loss): their cases are counted and reported as KNOWN-FINDING, every other bucket is a VIOLATION. 'Committed' is defined by the pointer history the harness records after successful calls.",
+   technique="property-based testing (Hypothesis histories + pointer-byte grammar) against a model of committed versions and an independent reader", design="3/C10")
 NOT_YET = {}
 
 def main():
